@@ -439,7 +439,8 @@ def generate(rng, tier):
     mid = make_cfg(files=FILES_M, sndbuf=4096)      # the server's socket takes a few kilobytes per write
     cases.append(conn_case(mid, [R(b"GET", b"/m.bin"), R(b"GET", b"/f.txt"), R(b"HEAD", b"/m.bin"), R(b"GET", b"/m.bin", [(b"range", b"bytes=65535-65537")]),
                                  R(b"GET", b"/s/big.bin"), R(b"HEAD", b"/s/big.bin"), R(b"GET", b"/s/big.bin", [(b"range", b"bytes=65530-69999")]),
-                                 R(b"GET", b"/m.bin", [(b"accept-encoding", b"gzip")]), R(b"GET", b"/h/big"), R(b"GET", b"/f.txt")], "corpus-large"))
+                                 R(b"GET", b"/m.bin", [(b"accept-encoding", b"gzip")]), R(b"GET", b"/m.bin", [(b"accept-encoding", b"gzip"), (b"range", b"bytes=100-65999")]),
+                                 R(b"GET", b"/m.bin", [(b"accept-encoding", b"br"), (b"range", b"bytes=0-69999")]), R(b"GET", b"/h/big"), R(b"GET", b"/f.txt")], "corpus-large"))
     huge = make_cfg(files=FILES_HUGE, sndbuf=rng.choice([0, 4096]))
     cases.append(conn_case(huge, [R(b"GET", b"/huge.bin"), R(b"GET", b"/f.txt"), R(b"HEAD", b"/huge.bin"), R(b"GET", b"/f.txt")], "corpus-huge"))
     cases.append(conn_case(huge, [R(b"GET", b"/s/huge.bin"), R(b"GET", b"/f.txt"), R(b"GET", b"/s/huge.bin", [(b"range", b"bytes=1299990-1400000")]), R(b"GET", b"/f.txt")], "corpus-huge"))
@@ -656,6 +657,10 @@ def compare(c, i, m):
                 and _hdr(hs, b"reason") == b"Range start after end of body"):
             # the range was applied to a coded representation shorter than the identity one (the 416 page itself is not coded)
             if ver != pver or _hdr(hs, b"connection") != dict(psel).get(b"connection"):
+                return False
+        elif has_range and st >= 400 and pst >= 400 and _hdr(hs, b"content-range") is not None:
+            # a range of an error page: which bytes and of how many depends on the page's text, which no statement fixes
+            if (ver, st) != (pver, pst) or _hdr(hs, b"connection") != dict(psel).get(b"connection"):
                 return False
         elif enc in (None, b"identity"):
             if (ver, st, sel, _canon(body, st)) != (pver, pst, psel, _canon(pbody, pst)):
